@@ -209,7 +209,7 @@ def replay_family(rep, path, run):
     return rc
 
 
-RULE = ("18 element types (basics incl. +0/-0 floats, bool and complex128, named basics incl. a named bool, comparable struct, pointers to structs incl. recursive and "
+RULE = ("22 element types (basics incl. +0/-0 floats, bool and complex128, named basics incl. a named bool, []byte / named []byte / []string / [2]int elements with nil, empty and different-length inner slices whose lexicographic order differs from the derived length-first order, comparable struct, pointers to structs incl. recursive and "
         "imported, slices, struct with pointers; more on thorough) and 6 key types x a boundary-biased list pool per type "
         "(nil, empty, singleton, duplicates fresh and aliased, both orders of pairs, all 6 orders of triples, Equal-but-not-identical "
         "variants, whole pool / reversed / sorted / reverse-sorted, nil elements, seeded random lists up to length 7 (12 thorough)); "
